@@ -21,6 +21,11 @@ for c in ids:
     extra = ("\nEarlier rounds already produced changes at these places - produce two NEW ones in DIFFERENT functions / mechanisms "
              "(other files of the same feature are welcome; look at the whole statement of the property, including its later "
              "sentences and the less obvious clauses):\n" + "\n".join(prev.get(c, [])) + "\n")
+    if os.environ.get("SEED_WITH_ANCHORS") == "1":
+        # the property record's own anchors (part of the given property): where it is implemented
+        mech = "\n".join("  - %s: %s" % (m["name"], m["where"]) for m in p["anchors"]["mechanism"])
+        prop += "\nWhere the property is implemented (from the property record; line numbers are approximate):\n" + mech + "\n"
+        extra += "\nPrefer changes INSIDE the mechanisms listed above (one patch per mechanism, not used by an earlier round), in the real logic of those functions.\n"
     open("%s/%s-out/property.txt" % (base, c), "w").write(prop)
     open("%s/%s-out/PROMPT.txt" % (base, c), "w").write(t.replace("@ID@", c).replace("@PROPERTY@", prop + extra))
 print("prepared", ids, "under", base)
